@@ -31,11 +31,16 @@ type X struct {
 	caseOf map[ast.Expr]*ast.SwitchStmt
 	synth  map[ast.Expr]ast.Expr
 	loops  []ast.Stmt
+	// Prog enables the inlining of same-package helper predicates in Table.
+	Prog  *core.Program
+	bind  map[types.Object]ast.Expr // parameter -> argument, when this body is an inlined helper
+	expd  map[types.Object]ast.Expr // memo of expandable boolean locals (nil entry: not expandable)
+	depth int
 }
 
 // New indexes the switch statements and loops of g's body.
 func New(g *cfgq.Graph) *X {
-	x := &X{G: g, Info: g.Info, caseOf: map[ast.Expr]*ast.SwitchStmt{}, synth: map[ast.Expr]ast.Expr{}}
+	x := &X{G: g, Info: g.Info, caseOf: map[ast.Expr]*ast.SwitchStmt{}, synth: map[ast.Expr]ast.Expr{}, expd: map[types.Object]ast.Expr{}, depth: 2}
 	core.Inspect(g.Body, func(n ast.Node) bool {
 		switch s := n.(type) {
 		case *ast.SwitchStmt:
@@ -116,6 +121,10 @@ func BoolConst(info *types.Info, e ast.Expr) (bool, bool) {
 func (x *X) Facts(e ast.Expr, val bool) []cfgq.Fact {
 	e = ast.Unparen(e)
 	switch c := e.(type) {
+	case *ast.Ident:
+		if rhs := x.Expand(c); rhs != nil {
+			return append([]cfgq.Fact{{Expr: e, Val: val}}, x.Facts(rhs, val)...)
+		}
 	case *ast.UnaryExpr:
 		if c.Op == token.NOT {
 			return x.Facts(c.X, !val)
@@ -180,9 +189,19 @@ func (x *X) OnlyVia(from cfgq.Point, target ast.Node, match func(cfgq.Fact) bool
 
 // Lit is one atomic branch decision on a path.
 type Lit struct {
-	Expr ast.Expr
-	Val  bool
-	Loop ast.Stmt // innermost loop whose body contains the test
+	Expr  ast.Expr
+	Val   bool
+	Loop  ast.Stmt                // innermost loop whose body contains the test
+	Root  ast.Node                // body in which the locals of Expr are defined
+	Subst func(ast.Expr) ast.Expr // maps an expression of that body to the analysed predicate's terms (parameters of an inlined helper replaced by the arguments)
+}
+
+// In returns the expression e of the literal's body in the terms of the analysed predicate.
+func (l Lit) In(e ast.Expr) ast.Expr {
+	if l.Subst == nil || e == nil {
+		return e
+	}
+	return l.Subst(e)
 }
 
 // Ev is one event of a trace: an executed node, a branch literal, or the
@@ -246,6 +265,10 @@ func (x *X) shortCircuit(e ast.Expr, val bool) [][]Lit {
 		return out
 	}
 	switch c := e.(type) {
+	case *ast.Ident:
+		if rhs := x.Expand(c); rhs != nil {
+			return x.shortCircuit(rhs, val)
+		}
 	case *ast.UnaryExpr:
 		if c.Op == token.NOT {
 			return x.shortCircuit(c.X, !val)
@@ -271,7 +294,7 @@ func (x *X) shortCircuit(e ast.Expr, val bool) [][]Lit {
 			}
 		}
 	}
-	return [][]Lit{{{Expr: e, Val: val, Loop: x.LoopOf(e)}}}
+	return [][]Lit{{{Expr: e, Val: val, Loop: x.LoopOf(e), Root: x.G.Body, Subst: x.subst}}}
 }
 
 // Traces enumerates the acyclic paths that start at node idx of block from.
@@ -392,33 +415,67 @@ func (x *X) Table(traces []Trace, result int, cls Classifier) ([]Row, error) {
 		out  string
 		dead bool
 	}
-	var pres []*pre
+	clone := func(p *pre) *pre {
+		q := &pre{lits: map[string]bool{}, done: p.done, out: p.out, dead: p.dead}
+		for k, v := range p.lits {
+			q.lits[k] = v
+		}
+		return q
+	}
 	set := func(p *pre, a string, v bool) {
 		if old, ok := p.lits[a]; ok && old != v {
 			p.dead = true
 		}
 		p.lits[a] = v
 	}
-	addLits := func(p *pre, lits []Lit) error {
+	// addLits extends every partial row by the literals; a literal that the
+	// classifier does not know and that calls a helper of the same package is
+	// replaced by the helper's own rows (parameters bound to the arguments).
+	addLits := func(ps []*pre, lits []Lit) ([]*pre, error) {
 		for _, l := range lits {
+			l.Expr = x.subst(l.Expr)
+			if l.Root == nil {
+				l.Root, l.Subst = x.G.Body, x.subst
+			}
 			a, pol, ok := cls(l)
-			if !ok {
-				return fmt.Errorf("unrecognised test `%s`", core.NodeString(x.G.Fset, l.Expr))
-			}
-			v := l.Val == pol
-			if l.Loop != nil {
-				if !v {
-					continue
+			if ok {
+				v := l.Val == pol
+				if l.Loop != nil {
+					if !v {
+						continue
+					}
+					if loopAtoms[l.Loop] == nil {
+						loopAtoms[l.Loop] = map[string]bool{}
+					}
+					loopAtoms[l.Loop][a] = true
 				}
-				if loopAtoms[l.Loop] == nil {
-					loopAtoms[l.Loop] = map[string]bool{}
+				for _, p := range ps {
+					set(p, a, v)
 				}
-				loopAtoms[l.Loop][a] = true
+				continue
 			}
-			set(p, a, v)
+			rows, ierr := x.inline(l, cls)
+			if ierr != nil || l.Loop != nil {
+				return nil, fmt.Errorf("unrecognised test `%s`", core.NodeString(x.G.Fset, l.Expr))
+			}
+			var next []*pre
+			for _, p := range ps {
+				for _, r := range rows {
+					if r.Out != fmt.Sprint(l.Val) {
+						continue
+					}
+					q := clone(p)
+					for a, v := range r.Lits {
+						set(q, a, v)
+					}
+					next = append(next, q)
+				}
+			}
+			ps = next
 		}
-		return nil
+		return ps, nil
 	}
+	var pres []*pre
 	for ti := range traces {
 		t := &traces[ti]
 		if t.End != EndReturn {
@@ -428,36 +485,42 @@ func (x *X) Table(traces []Trace, result int, cls Classifier) ([]Row, error) {
 			return nil, fmt.Errorf("a path leaves the predicate without a return statement")
 		}
 		p := &pre{lits: map[string]bool{}}
-		if err := addLits(p, t.Lits()); err != nil {
-			return nil, err
-		}
 		for _, e := range t.Evs {
 			if e.Done != nil {
 				p.done = append(p.done, e.Done)
 			}
+		}
+		ps, err := addLits([]*pre{p}, t.Lits())
+		if err != nil {
+			return nil, err
 		}
 		if result >= len(t.Ret.Results) {
 			return nil, fmt.Errorf("return statement without result %d", result)
 		}
 		res := t.Ret.Results[result]
 		if bv, ok := BoolConst(x.Info, res); ok {
-			p.out = fmt.Sprint(bv)
-			pres = append(pres, p)
+			for _, q := range ps {
+				q.out = fmt.Sprint(bv)
+			}
+			pres = append(pres, ps...)
 			continue
 		}
 		for _, val := range []bool{true, false} {
 			for _, alt := range x.shortCircuit(res, val) {
-				q := &pre{lits: map[string]bool{}, done: p.done, out: fmt.Sprint(val), dead: p.dead}
-				for k, v := range p.lits {
-					q.lits[k] = v
+				var qs []*pre
+				for _, q := range ps {
+					c := clone(q)
+					c.out = fmt.Sprint(val)
+					qs = append(qs, c)
 				}
 				for k := range alt {
 					alt[k].Loop = nil
 				}
-				if err := addLits(q, alt); err != nil {
+				qs, err := addLits(qs, alt)
+				if err != nil {
 					return nil, err
 				}
-				pres = append(pres, q)
+				pres = append(pres, qs...)
 			}
 		}
 	}
@@ -473,6 +536,132 @@ func (x *X) Table(traces []Trace, result int, cls Classifier) ([]Row, error) {
 		}
 	}
 	return rows, nil
+}
+
+// inline computes the rows of the same-package helper called by the literal,
+// with the helper's parameters (and receiver) bound to the call's arguments.
+func (x *X) inline(l Lit, cls Classifier) ([]Row, error) {
+	call, ok := ast.Unparen(l.Expr).(*ast.CallExpr)
+	if !ok || x.Prog == nil || x.depth <= 0 || call.Ellipsis.IsValid() {
+		return nil, fmt.Errorf("not a call")
+	}
+	f := core.CalleeFunc(x.Info, call)
+	h := x.Prog.FnOf(f)
+	if h == nil || h.Decl.Body == nil || h.Pkg.TypesInfo != x.Info || h.Decl.Body == x.G.Body {
+		return nil, fmt.Errorf("not a helper of the same package")
+	}
+	sig := f.Type().(*types.Signature)
+	if sig.Variadic() || sig.Params().Len() != len(call.Args) || sig.Results().Len() == 0 {
+		return nil, fmt.Errorf("signature not supported")
+	}
+	if b, ok := sig.Results().At(0).Type().Underlying().(*types.Basic); !ok || b.Kind() != types.Bool {
+		return nil, fmt.Errorf("no boolean result")
+	}
+	bind := map[types.Object]ast.Expr{}
+	i := 0
+	for _, fl := range h.Decl.Type.Params.List {
+		for _, n := range fl.Names {
+			if o := h.Pkg.TypesInfo.Defs[n]; o != nil {
+				bind[o] = call.Args[i]
+			}
+			i++
+		}
+	}
+	if h.Decl.Recv != nil && len(h.Decl.Recv.List) == 1 && len(h.Decl.Recv.List[0].Names) == 1 {
+		if sel, ok := ast.Unparen(call.Fun).(*ast.SelectorExpr); ok {
+			bind[h.Pkg.TypesInfo.Defs[h.Decl.Recv.List[0].Names[0]]] = sel.X
+		}
+	}
+	hx := New(cfgq.Of(x.Prog, h))
+	hx.Prog, hx.bind, hx.depth = x.Prog, bind, x.depth-1
+	traces, err := hx.Traces(hx.G.CFG.Blocks[0], 0, nil, 200)
+	if err != nil {
+		return nil, err
+	}
+	return hx.Table(traces, 0, cls)
+}
+
+// subst replaces the bound parameters of an inlined helper in e by the
+// arguments. Sub-trees without a bound parameter are returned as they are
+// (original nodes keep their type information).
+func (x *X) subst(e ast.Expr) ast.Expr {
+	if len(x.bind) == 0 || e == nil {
+		return e
+	}
+	mentions := false
+	ast.Inspect(e, func(n ast.Node) bool {
+		if id, ok := n.(*ast.Ident); ok {
+			if _, bound := x.bind[core.ObjOf(x.Info, id)]; bound && core.ObjOf(x.Info, id) != nil {
+				mentions = true
+			}
+		}
+		return !mentions
+	})
+	if !mentions {
+		return e
+	}
+	switch v := e.(type) {
+	case *ast.Ident:
+		if r, ok := x.bind[core.ObjOf(x.Info, v)]; ok {
+			return r
+		}
+	case *ast.ParenExpr:
+		return &ast.ParenExpr{Lparen: v.Lparen, X: x.subst(v.X), Rparen: v.Rparen}
+	case *ast.UnaryExpr:
+		return &ast.UnaryExpr{OpPos: v.OpPos, Op: v.Op, X: x.subst(v.X)}
+	case *ast.StarExpr:
+		return &ast.StarExpr{Star: v.Star, X: x.subst(v.X)}
+	case *ast.BinaryExpr:
+		return &ast.BinaryExpr{X: x.subst(v.X), OpPos: v.OpPos, Op: v.Op, Y: x.subst(v.Y)}
+	case *ast.SelectorExpr:
+		return &ast.SelectorExpr{X: x.subst(v.X), Sel: v.Sel}
+	case *ast.IndexExpr:
+		return &ast.IndexExpr{X: x.subst(v.X), Lbrack: v.Lbrack, Index: x.subst(v.Index), Rbrack: v.Rbrack}
+	case *ast.CallExpr:
+		c := &ast.CallExpr{Fun: x.subst(v.Fun), Lparen: v.Lparen, Ellipsis: v.Ellipsis, Rparen: v.Rparen}
+		for _, a := range v.Args {
+			c.Args = append(c.Args, x.subst(a))
+		}
+		return c
+	}
+	return e
+}
+
+// Expand returns the defining expression of a boolean local that is assigned
+// exactly once from an expression over stable operands (parameters, locals
+// assigned at most once, configuration fields), or nil.
+func (x *X) Expand(id *ast.Ident) ast.Expr {
+	o := BoolLocal(x.Info, id)
+	if o == nil {
+		return nil
+	}
+	if r, ok := x.expd[o]; ok {
+		return r
+	}
+	x.expd[o] = nil
+	d, ok := SingleDef(x.Info, x.G.Body, id)
+	if !ok || d.Rhs == nil || d.Index != -1 || d.Range != nil {
+		return nil
+	}
+	if _, isConst := BoolConst(x.Info, d.Rhs); isConst {
+		return nil
+	}
+	stable := true
+	ast.Inspect(d.Rhs, func(n ast.Node) bool {
+		if m, ok := n.(*ast.Ident); ok && stable {
+			if v, ok := core.ObjOf(x.Info, m).(*types.Var); ok && !v.IsField() && v.Pkg() != nil && v.Parent() != v.Pkg().Scope() {
+				if len(DefsOf(x.Info, x.G.Body, v)) > 1 {
+					stable = false
+				}
+			}
+		}
+		return stable
+	})
+	if !stable {
+		return nil
+	}
+	x.expd[o] = d.Rhs
+	return d.Rhs
 }
 
 // Atoms returns the sorted atom names used by rows.
